@@ -63,6 +63,18 @@ def struct_faults(w, msg_bytes, r):
                         inv["db"].append(k.data.uuid)
     missing = bytes(r.getrandbits(8) for _ in range(16))
 
+    known = {u for us in inv.values() for u in us}
+
+    def near(u):
+        """A UUID no node carries that differs from the referenced one only in the RFC-4122
+        version nibble or variant bits (a loader that normalises those bits would resolve it)."""
+        for i, bit in ((6, 0x10), (6, 0x20), (8, 0x40), (8, 0x80)):
+            v = bytearray(u)
+            v[i] ^= bit
+            if len(v) == 16 and bytes(v) not in known:
+                return bytes(v)
+        return None
+
     def wrong(kinds):
         pool = [u for k in kinds for u in inv[k]]
         return pool[r.randrange(len(pool))] if pool else None
@@ -86,6 +98,11 @@ def struct_faults(w, msg_bytes, r):
                     x = fresh()
                     x.modules[mi].symbols[si].referent_uuid = missing
                     emit("dangling:symbol_referent:%d.%d" % (mi, si), x, "deser")
+                    nu = near(s.referent_uuid)
+                    if nu is not None:
+                        x = fresh()
+                        x.modules[mi].symbols[si].referent_uuid = nu
+                        emit("dangling:near:symbol_referent:%d.%d" % (mi, si), x, "deser")
                     for wk, wu in wrong_each(("sym", "sec", "bi", "mod", "ir")):
                         if wu != s.uuid:
                             x = fresh()
@@ -96,6 +113,11 @@ def struct_faults(w, msg_bytes, r):
             x = fresh()
             x.modules[mi].entry_point = missing
             emit("dangling:entry_point:%d" % mi, x, "deser")
+            nu = near(m.entry_point)
+            if nu is not None:
+                x = fresh()
+                x.modules[mi].entry_point = nu
+                emit("dangling:near:entry_point:%d" % mi, x, "deser")
             for wk, wu in wrong_each(("db", "px", "sym", "sec", "bi", "mod", "ir")):
                 x = fresh()
                 x.modules[mi].entry_point = wu
@@ -105,6 +127,11 @@ def struct_faults(w, msg_bytes, r):
             x = fresh()
             setattr(x.cfg.edges[ei], fld, missing)
             emit("dangling:edge_%s:%d" % (fld, ei), x, "deser")
+            nu = near(getattr(e, fld))
+            if nu is not None:
+                x = fresh()
+                setattr(x.cfg.edges[ei], fld, nu)
+                emit("dangling:near:edge_%s:%d" % (fld, ei), x, "deser")
             for wk, wu in wrong_each(("db", "sym", "sec", "bi", "mod", "ir")):
                 x = fresh()
                 setattr(x.cfg.edges[ei], fld, wu)
@@ -123,6 +150,11 @@ def struct_faults(w, msg_bytes, r):
                         x = fresh()
                         setattr(getattr(x.modules[mi].sections[si].byte_intervals[bi_].symbolic_expressions[off], sub), fld, missing)
                         emit("dangling:expr_%s:%d.%d.%d@%d" % (fld, mi, si, bi_, off), x, "deser")
+                        nu = near(getattr(getattr(e, sub), fld))
+                        if nu is not None:
+                            x = fresh()
+                            setattr(getattr(x.modules[mi].sections[si].byte_intervals[bi_].symbolic_expressions[off], sub), fld, nu)
+                            emit("dangling:near:expr_%s:%d.%d.%d@%d" % (fld, mi, si, bi_, off), x, "deser")
                         for wk, wu in wrong_each(("cb", "db", "px", "sec", "bi", "mod", "ir")):
                             x = fresh()
                             setattr(getattr(x.modules[mi].sections[si].byte_intervals[bi_].symbolic_expressions[off], sub), fld, wu)
